@@ -163,8 +163,8 @@ def classify_body(msg, fresh, bases):
         call = ser.loadsCall(data)
     except (errors.CommunicationError, errors.SecurityError):
         # e.g. msgpack ext code -> SerializeError, dunder class name -> SecurityError: reported AND re-raised (the
-        # connection ends); Server.Body has no such payload kind, so the delivery is left to the oracle
-        return None
+        # connection ends): Body.undecodable true
+        return ["US"]
     except Exception:
         return ["U"]
     if msg.flags & protocol.FLAGS_KEEPSERIALIZED:
